@@ -76,6 +76,8 @@ def _dims(prog: Program, res: Result) -> None:
         if isinstance(n, ast.Assign) and isinstance(n.targets[0], ast.Name):
             assigns.setdefault(n.targets[0].id, []).append(n)
 
+    special: Dict[str, str] = {}
+
     def tag(e: ast.expr, depth=0) -> Optional[str]:
         """'ARGSORT(x)' / 'SORTED(x)' tags."""
         if isinstance(e, ast.Call):
@@ -100,7 +102,22 @@ def _dims(prog: Program, res: Result) -> None:
             return name_tag(e.id, depth)
         return None
 
+    # tuple assignments from np.unique(x, return_inverse/return_index=True)
+    for n in ast.walk(fi.node):
+        if isinstance(n, ast.Assign) and isinstance(n.targets[0], ast.Tuple) and isinstance(n.value, ast.Call) \
+                and (dotted(n.value.func) or "").split(".")[-1] == "unique" and n.value.args:
+            x = ast.unparse(n.value.args[0])
+            names = [t.id if isinstance(t, ast.Name) else None for t in n.targets[0].elts]
+            kinds = ["SORTED"] + [k for k in ("return_index", "return_inverse", "return_counts")
+                                  if kwarg(n.value, k) is not None and const(kwarg(n.value, k)) is True]
+            for nm_, k in zip(names, kinds):
+                if nm_:
+                    special[nm_] = {"SORTED": f"SORTED({x})", "return_index": f"ARGSORT({x})",
+                                    "return_inverse": f"INVERSE-OF-ARGSORT({x})", "return_counts": "COUNTS"}[k]
+
     def name_tag(nm: str, depth=0) -> Optional[str]:
+        if nm in special:
+            return special[nm]
         if depth > 3 or nm not in assigns or len(assigns[nm]) != 1:
             return None
         return tag(assigns[nm][0].value, depth + 1)
@@ -140,8 +157,11 @@ def _dims(prog: Program, res: Result) -> None:
                         verdict, why = "UNDEC", f"selector test {ast.unparse(n.test)}"
                     elif tt and ft and tt.startswith("ARGSORT(") and ft.startswith("SORTED(") and (subject is None or (subject in tt and subject in ft)):
                         verdict, why = "OK", f"P == M -> {tt}; else -> {ft}"
+                    elif tt is None or ft is None:
+                        verdict, why = "UNDEC", f"index expressions not recognised ({tt}, {ft})"
                     else:
-                        verdict, why = "BAD", f"when the counts are equal the index is {tt}, otherwise {ft} (expected ARGSORT / SORTED of the modes)"
+                        verdict, why = "BAD", f"when the counts are equal the index is {tt}, otherwise {ft} (expected ARGSORT / SORTED of the modes): " \
+                                              "multiplicands are paired with the wrong modes whenever dims is not an involution of its sorted order"
         if verdict == "OK":
             res.ok("DIMS", short, desc, prog.loc(fi), why)
         elif verdict == "BAD":
